@@ -715,8 +715,23 @@ class Executor:
   def st_Continue(self, s):
     raise ContinueSig()
 
+  def narrow(self, test, truth):
+    """After `x is None` / `x is not None` on a local optional was decided, the local is
+    known not to be None on the corresponding branch: it is replaced by its inner value."""
+    if isinstance(test, ast.Compare) and len(test.ops) == 1 and \
+        isinstance(test.left, ast.Name) and isinstance(test.comparators[0], ast.Constant) and \
+        test.comparators[0].value is None:
+      not_none = (isinstance(test.ops[0], ast.IsNot) and truth) or \
+                 (isinstance(test.ops[0], ast.Is) and not truth)
+      name = test.left.id
+      v = self.frame.env.get(name)
+      if not_none and isinstance(v, VOpt) and name not in self.contract.local_kinds:
+        self.frame.env[name] = v.inner
+
   def st_If(self, s):
-    if self.decide_truth(self.ev(s.test), s.test):
+    t = self.decide_truth(self.ev(s.test), s.test)
+    self.narrow(s.test, t)
+    if t:
       self.exec_block(s.body)
     else:
       self.exec_block(s.orelse)
@@ -1733,6 +1748,13 @@ class Executor:
         obj, name = fn.payload
         if isinstance(obj, (VList, VDict, VStr, VTuple)):
           return self.world.call_value_method(self, obj, name, args, kwargs, node)
+        if isinstance(obj, VRecord) and name == '_replace' and not args:
+          flds = dict(obj.fields)          # NamedTuple._replace: a copy with some fields set
+          for k, v in kwargs.items():
+            if k not in obj.kind.fields:
+              self.py_raise('ValueError', node)
+            flds[k] = coerce(v, obj.kind.fields[k])
+          return VRecord(obj.kind, flds)
         return self.call_repo_function(fn, args, kwargs, node)
       if fn.what == 'func':
         return self.call_repo_function(fn, args, kwargs, node)
